@@ -39,7 +39,8 @@ def G(name, t, c=None, p=""):
 
 
 ALPHA = [G("X", [0]), G("H", [0]), G("H", [1]), G("RY", [0], None, 0.8), G("CNOT", [1], [0]), G("CNOT", [0], [1]),
-         G("CRZ", [1], [0], 0.7), G("CSWAP", [0, 1], [2]), G("CNOT", [2], [0, 1]), G("X", [2])]
+         G("CRZ", [1], [0], 0.7), G("CSWAP", [0, 1], [2]), G("CNOT", [2], [0, 1]), G("X", [2]),
+         G("RY", [1], None, 0.0)]      # a rotation by exactly zero is still an occurrence of the (noisy) gate
 
 P_ALPHA = [[0.0, 0.0, 0.0], [0.1, 0.0, 0.0], [0.0, 0.2, 0.05], [0.3, 0.3, 0.4]]
 Q_ALPHA = [0.0, 0.1, 1.0 / 3.0, 1.0]
